@@ -220,13 +220,19 @@ func (cw *c18CliWorld) do(bodyLen int, timeout time.Duration) *c18CliObs {
 	}
 	o.Status, o.Header = resp.StatusCode, resp.Header.Clone()
 	buf := make([]byte, 900)
-	for {
+	for zeroReads := 0; ; {
 		n, err := resp.Body.Read(buf)
 		o.Body = append(o.Body, buf[:n]...)
 		if err != nil {
 			if err != io.EOF {
 				o.ReadErr = err.Error()
 			}
+			break
+		}
+		if n > 0 {
+			zeroReads = 0
+		} else if zeroReads++; zeroReads > c18MaxZeroReads {
+			o.ReadErr = c18Livelock
 			break
 		}
 	}
@@ -535,6 +541,8 @@ func c18RunCliCase(r *c18PeerRun) {
 				vs = append(vs, r.viol("client|scripted|exact-content-length-rejected", "%s: err %q read error %q, %d bytes", vr.name, o.Err, o.ReadErr, len(o.Body)))
 			}
 		case o.Err != "":
+		case o.ReadErr == c18Livelock:
+			vs = append(vs, r.viol("client|response-body-read-never-ends", "%s: content-length %d, DATA frames %v: after %d bytes Body.Read keeps returning (0, nil)", vr.name, vr.declared, vr.frames, len(o.Body)))
 		case o.ReadErr == "":
 			vs = append(vs, r.viol("client|content-length|"+kind+"-response-body-read-as-clean-EOF", "%s: content-length %d, DATA frames %v; the client read %d bytes and then io.EOF without an error", vr.name, vr.declared, vr.frames, len(o.Body)))
 		case len(o.Body) > vr.declared:
